@@ -42,8 +42,18 @@ def main() -> int:
         report["demo_passes_on_clean_tree"] = rc0 == 0
         rc, out = sh(f"git apply {seed / 'patch.diff'}", REPO)
         if rc != 0:
-            print("patch does not apply:\n" + out)
-            return 2
+            # later fixes touched the same lines: try a 3-way merge of the same edit and keep the rebased patch
+            rc, out3 = sh(f"git apply --3way {seed / 'patch.diff'}", REPO)
+            if rc != 0 or "with conflicts" in out3:
+                sh("git reset -q --hard HEAD", REPO)
+                print("patch does not apply:\n" + out + out3)
+                return 2
+            _rc, diff = sh("git diff HEAD", REPO)
+            sh("git reset -q", REPO)
+            (seed / "patch.diff").write_text(diff if diff.endswith("\n") else diff + "\n")
+            meta["rebased"] = "patch.diff regenerated with git apply --3way on top of later fixes to the same lines (same edit)"
+            (seed / "meta.json").write_text(json.dumps(meta, indent=1))
+            report["rebased"] = True
         rc1, out1 = sh(f"/venv/bin/python {demo}", REPO, 600)
         report["demo_fails_with_patch"] = rc1 != 0
         if not skip_tests:
